@@ -44,13 +44,14 @@ def parse_behaviour(path):
         ev = dict(k=fld(evr, 'k', 'none'), t=fld(evr, 't', 0), svc=fld(evr, 'svc', ''), ch=fld(evr, 'ch', -1), seq=fld(evr, 'seq', -1),
                   st=fld(evr, 'st', -1), s=fld(evr, 's', ''))
         nm = re.search(r'/\\ now = (\d+)', st)
-        out.append(dict(now=int(nm.group(1)) if nm else 0, ev=ev, n=fld(rec.replace(fm.group(0), '') if fm else rec, 'n'), g=fld(rec.replace(fm.group(0), '') if fm else rec, 'g', 0),
+        epm = re.search(r'/\\ epoch = (\d+)', st)
+        out.append(dict(now=int(nm.group(1)) if nm else 0, epoch=int(epm.group(1)) if epm else 0, ev=ev, n=fld(rec.replace(fm.group(0), '') if fm else rec, 'n'), g=fld(rec.replace(fm.group(0), '') if fm else rec, 'g', 0),
                         svc=fld(f, 'svc', ''), ch=fld(f, 'ch', -1), seq=fld(f, 'seq', -1), st=fld(f, 'st', -1), pid=fld(f, 'pid', -1),
                         gwch=fld(g.group(1), 'ch', 0) if g else 0))
     return out
 
 
-def project(acts, unit, consts, run_id, tag):
+def project(acts, unit, consts, run_id, tag, prefix=None):
     """acts: parsed behaviour; unit: microseconds per model tick."""
     steps = [dict(op='new')]
     ticks = 0
@@ -61,8 +62,14 @@ def project(acts, unit, consts, run_id, tag):
         if ticks:
             steps.append(dict(op='adv', d=ticks * unit))
             ticks = 0
+    prefixed = prefix is None
     for i, a in enumerate(acts[1:], 1):
         n = a['n']
+        if not prefixed and acts[i - 1]['epoch'] >= 1 and n not in ('internal', 'timer', 'take', 'choice'):
+            # the connection stands and the client is quiet: use up sequence numbers so that the behaviour continues
+            # just below the wrap of the real 8-bit counters (the model counts modulo 4)
+            steps.append(dict(op='prefix', n=prefix[0], i=prefix[1]))
+            prefixed = True
         if n == 'tick':
             ticks += 1
             continue
@@ -127,7 +134,7 @@ def read_consts(cfgpath):
     return c
 
 
-def generate(work, cfg, num, depth, seed, unit=1000, first_id=1, tag='tlc'):
+def generate(work, cfg, num, depth, seed, unit=1000, first_id=1, tag='tlc', prefix_every=0):
     """Simulates Tunnel.tla under cfg (a file in spec/) and returns (runs, stats)."""
     d = work.path('tlcgen_%s_%d' % (cfg.replace('.cfg', ''), seed))
     os.makedirs(d, exist_ok=True)
@@ -148,6 +155,14 @@ def generate(work, cfg, num, depth, seed, unit=1000, first_id=1, tag='tlc'):
     runs = []
     for k, f in enumerate(files):
         acts = parse_behaviour(f)
-        runs.append(project(acts, unit, consts, first_id + k, tag))
+        pre = None
+        if prefix_every and k % prefix_every == prefix_every - 1 and consts.get('MaxEpoch', 1) >= 1 and not consts.get('EnableHB'):
+            # (only where the behaviour cannot reconnect: a new epoch restarts the real counters at 0)
+            pre = [(254, 0), (0, 254), (253, 255), (255, 253)][(k // prefix_every) % 4]
+            if not consts.get('EnableG2C'):
+                pre = (pre[0], 0)
+            if consts.get('MaxSend', 0) == 0:
+                pre = (0, pre[1])
+        runs.append(project(acts, unit, consts, first_id + k, tag, prefix=pre))
     m = re.search(r'(\d+) states checked', p.stdout)
     return runs, dict(behaviours=len(files), states=int(m.group(1)) if m else 0)
